@@ -46,6 +46,10 @@ fn main() {
         }
     }
     let _ = tier_explicit;
+    if id == "debug-c14" {
+        props::c14::debug_sizes();
+        return;
+    }
     let Some((static_id, run)) = props::lookup(&id) else {
         eprintln!("unknown property id {id}");
         std::process::exit(2);
